@@ -24,6 +24,7 @@ CLAIMS = {
                 "LANGUAGE EQUALITY for all finite call sequences: build() returns a model iff the session is Valid (c15_accepts_iff), where Valid is a first-order specification on the grouped calls "
                 "(Core/ModelSpec.lean) independent of the state machine; the Boolean the driver evaluates on every explored session is proved to be that specification (c15_validB_iff, c15_accepts_iff_validB); "
                 "the panic!(\"Logic error\") of check_completion is unreachable (c15_no_panic). "
+                "ERRORS NAME A DEFECT THAT IS PRESENT (Props/C15Defect.lean): defectB states, per error value and on the grouped calls only, when the named defect occurs in the session; for every finite call sequence the error build() returns satisfies it (c15_error_names_defect); the driver evaluates defectB on the implementation's own error value of every explored session. "
                 "the transcription of the builder state machine is tied to the code by exhaustive enumeration of short call sequences and random long ones with exact comparison of Ok/variant/payload.",
         "note": "Trusted: Lean kernel; transcription of src/model/builder/*.rs and detail.rs (Core/ModelBuilder.lean) as validated by the enumeration; harness + driver. "
                 "The theorems are about the transcription; the monitor (validB evaluated on the implementation's Ok/Err) ties the same specification to the real builder on every explored session.",
@@ -70,8 +71,8 @@ CLAIMS = {
     "C10": {
         "text": "Kernel-checked: after set_params alpha the cache is computeCache(Yw, eps, W Phi) for the Phi the model returned - nothing of earlier states enters (c10_function_of_alpha), so a problem with any history and a fresh one agree (c10_history_free, c10_build_is_set); "
                 "a failed update clears the cache (c10_failed_update_clears); queries do not change the state (c10_query_pure); in the Option-cell transcription of both uninit write loops no uninitialised cell survives, for every shape and every schedule executing all column tasks "
-                "(c10_no_uninit, c10_no_uninit_seq). Tie: history-vs-fresh and repeated-query twins on the real code, bit for bit, plus model comparison of all outputs. The cache of the problem a whole fit hands back equals the cache of a problem freshly built at the reported parameters (c10_fit_fresh, Props/E2E.lean).",
-        "note": "Trusted: as C01; the quantifier over heap contents is carried by the theorem on the model; on the code it is sampled (a poisoning allocator run is planned, DESIGN.md §7 C10).",
+                "(c10_no_uninit, c10_no_uninit_seq). Tie: history-vs-fresh, repeated-query and clone twins on the real code, bit for bit, plus model comparison of all outputs, plus the STATE-FIELD CENSUS: the members of the twelve state-carrying Rust types are re-extracted from /repo on every run and the fields of the Lean structures standing for them are read by reflection (lean/FieldCensus.lean); both are compared with the reviewed pairing census/reference.json - hidden state added to the implementation is a broken tie. The cache of the problem a whole fit hands back equals the cache of a problem freshly built at the reported parameters (c10_fit_fresh, Props/E2E.lean).",
+        "note": "Trusted: as C01; the quantifier over heap contents is carried by the theorem on the model; on the code it is sampled (two poisoning-allocator runs per check, DESIGN.md §11.2).",
     },
     "C06": {
         "text": "Kernel-checked: the weighted problem and the problem with pre-scaled rows feed identical inputs to SVD, solve, residual and every Jacobian block (c06_equiv_cache, c06_equiv_jac: definitional), "
@@ -95,7 +96,7 @@ CLAIMS = {
         "text": "Kernel-checked for EVERY behaviour of the numerical oracles (QR, LMPAR, norms are unconstrained parameters of the transcribed optimizer): fit = Ok exactly when the termination reason it reports is ResidualsZero/Orthogonal/Converged and both branches carry the optimizer's final problem and report (c04_ok_iff, c04_report, c04_successful_iff); "
                 "a trial is accepted only if it strictly decreases the residual norm (c04_accept_decreases, c04_objective_decreases, c04_predicted_nonneg); over a WHOLE run, by invariants over LM.run: the reported objective never exceeds the objective at the initial guess (c04_monotone), "
                 "after a successful termination the returned problem reports residuals that are those of the parameters it reports and the reported objective is half their squared norm - also when the last trial was rejected and the accepted parameters were re-applied (c04_coherent, for problems whose outputs are a function of the applied parameters = C10), "
-                "the evaluation count never exceeds max(patience*(P+1),2) and the optimizer model always terminates (c04_budget, c04_tests_budget); fit_with_statistics = Err(fit result) iff fit failed / coefficients absent / statistics erred (c04_fws). "
+                "the evaluation count never exceeds max(patience*(P+1),2) and the optimizer model always terminates (c04_budget, c04_tests_budget); the termination reason is truthful (Props/C04Reasons.lean: Orthogonal only after the gradient test <= gtol on the Jacobian and residuals of the returned state, ResidualsZero only with residuals of norm <= MIN_POSITIVE exposed by the returned problem, LostPatience only when the budget is used up, Converged never with two false flags); fit_with_statistics = Err(fit result) iff fit failed / coefficients absent / statistics erred (c04_fws). "
                 "Tie: fit stream; every model call of every fit is logged and checked by a trace acceptor to be an execution of LM.run. END TO END on varpro's own problem (Props/E2E.lean, through the refinement Props/Refine.lean of the real problem to the specification `(alpha, cache of alpha)` and the homomorphism lemma Proofs/LMHom.lean: the optimizer commutes with problem homomorphisms): for every model honouring the trait contract, every SVD routine and every behaviour of the optimizer's numerics, the problem handed back holds exactly the cache of the parameters it reports for EVERY termination (c04_final_cache), and a successful fit carries coefficients = truncated solve for W Phi(alpha_hat), residuals = Yw - W Phi(alpha_hat) C, objective = 1/2|residuals|^2 <= initial objective, evaluations within budget (c04_e2e).",
         "note": "Trusted: Lean kernel; the transcription of lm.rs control flow (Core/LM.lean) as validated by the trace acceptor on every fit; QR/LMPAR numerics are oracles (nothing assumed); NumLaws (0 < 1/2, 0 < 1e-4, 0 <= min_positive, norms >= 0); floating point modelled not verified.",
     },
